@@ -152,7 +152,7 @@ theorem runCore_once (p : Program) (ff0 : Bool) (hwf : wf p = true) : Once p (ru
       exact root_not_child p hwf st hm.root x hx
   · intro s c rest hinv h hs
     exact h.pop hwf (fun x hx => nested_sub_all p x (hinv.stackIn x hx)) c rest hs
-  · intro s _ h _ _ _
+  · intro s _ h _ _
     exact ⟨by rw [got_execd, got_stack']; exact h.nodup, by rw [got_execd, got_stack']; exact h.fresh⟩
 
 theorem runCore_execd_nodup (p : Program) (ff0 : Bool) (hwf : wf p = true) :
